@@ -68,6 +68,7 @@ class Check:
     self.known_hits: Dict[str, int] = {}
     self.findings = load_findings(prop)
     self._printed_known = set()
+    self._per_sig: Dict[str, int] = {}
     self.write_evidence = True       # False in --replay mode
 
   # ---- bookkeeping -------------------------------------------------------
@@ -132,7 +133,10 @@ class Check:
         self._printed_known.add(fid)
         print(f'KNOWN-FINDING: property={self.prop} {fid}: {f.get("what", "")}', flush=True)
       return True
-    if len(self.violations) < 50:
+    key = json.dumps(_jsonable(signature), sort_keys=True)
+    n = self._per_sig.get(key, 0)
+    self._per_sig[key] = n + 1
+    if n < 3 and len(self.violations) < 300:       # a few witnesses per signature, every signature kept
       self.violations.append({'signature': _jsonable(signature), 'detail': _jsonable(detail)})
     else:
       self.count('violations_not_recorded')
